@@ -195,7 +195,7 @@ func c08r3(r *R) {
 	for _, lit := range anonFuncs(rhc) {
 		for _, c := range calls(lit, nameIs("proxyproto.ReadHeader")) {
 			b := closureBindings(lit)
-			arg := describe(c.Common().Args[0])
+			arg := describe(refArgs(c.Common())[0])
 			good := false
 			for i, bd := range b {
 				if bd == "$0" && arg == fmt.Sprintf("^%d.Conn", i) {
@@ -405,7 +405,7 @@ func c08r5(r *R) {
 				return
 			}
 			n++
-			sl, ok := c.Common().Args[0].(*ssa.Slice)
+			sl, ok := refArgs(c.Common())[0].(*ssa.Slice)
 			if !ok {
 				why = append(why, "read target is not a sub-slice")
 				return
@@ -652,19 +652,18 @@ func c08r6(r *R) {
 			}
 			n++
 			m := p.Mem
-			if m["local:src.IP"] != fam.l.srcIP || m["local:dest.IP"] != fam.l.dstIP || m["local:src.Port"] != fam.l.srcPort || m["local:dest.Port"] != fam.l.dstPort {
-				why = append(why, "address fields read from the wrong offsets: src.IP="+m["local:src.IP"]+" dest.IP="+m["local:dest.IP"]+" src.Port="+m["local:src.Port"]+" dest.Port="+m["local:dest.Port"])
-			}
+			// what the header hands out: the objects stored as Source and Destination, whatever builds them
 			udp := p.holds("(($0[13] & 15) == 2)")
 			src, dst := m["local:h.Source"], m["local:h.Destination"]
-			if !udp {
-				if src != "local:src" || dst != "local:dest" {
-					why = append(why, "TCP: Source="+src+" Destination="+dst)
-				}
-			} else {
-				if m[src+".IP"] != m["local:src.IP"] || m[src+".Port"] != m["local:src.Port"] || m[dst+".IP"] != m["local:dest.IP"] || m[dst+".Port"] != m["local:dest.Port"] || src == dst {
-					why = append(why, "UDP: source/destination built from the wrong record")
-				}
+			if m[src+".IP"] != fam.l.srcIP || m[dst+".IP"] != fam.l.dstIP || m[src+".Port"] != fam.l.srcPort || m[dst+".Port"] != fam.l.dstPort {
+				why = append(why, "address fields read from the wrong offsets: Source.IP="+m[src+".IP"]+" Destination.IP="+m[dst+".IP"]+" Source.Port="+m[src+".Port"]+" Destination.Port="+m[dst+".Port"])
+			}
+			wantT := "*net.TCPAddr"
+			if udp {
+				wantT = "*net.UDPAddr"
+			}
+			if m[src+"#type"] != wantT || m[dst+"#type"] != wantT || src == dst {
+				why = append(why, fmt.Sprintf("transport bits say %s but Source is %s and Destination %s", wantT, m[src+"#type"], m[dst+"#type"]))
 			}
 			// TLV offset
 			if tl, ok := m["local:h.RawTLVs"]; ok && tl != tr+"["+fam.off+":]" {
